@@ -42,6 +42,8 @@ def names_h():
             d(L + '__op_bool__0', 'vf_lock_owns')
             d(L + '__op_conv__0', 'vf_lock_owns')
             d(L + '__mutex__0', 'vf_lock_mutex')
+            d(L + '__swap__1', 'vf_lock_swap')
+            d(L + '__release__0', 'vf_lock_release')
         G = 'std_lock_guard_' + M
         d(G, 'vf_lock')
         d(G + '__ctor__mutex_type_ref', 'vf_guard_ctor')
